@@ -136,6 +136,12 @@ func (g *c16Gen) freshKey() string {
 	for {
 		g.n++
 		k := fmt.Sprintf("%s%d", []string{"k", "key_", "x-", "Cap", "snake_case_"}[g.r.IntN(5)], g.n)
+		if g.r.IntN(6) == 0 {
+			// long keys: 30 to 130 characters (generated configuration, namespaced settings)
+			if l := []int{30, 31, 32, 33, 40, 64, 65, 130}[g.r.IntN(8)]; l > len(k)+1 {
+				k += "_" + strings.Repeat("l", l-len(k)-1)
+			}
+		}
 		if !g.names[k] {
 			g.names[k] = true
 			return k
@@ -149,6 +155,9 @@ func (g *c16Gen) typ(depth int, allowInline bool) *c16Type {
 	for i := 0; i < nf; i++ {
 		g.n++
 		f := c16Field{Name: fmt.Sprintf("F%d", g.n)}
+		if g.r.IntN(10) == 0 {
+			f.Name += strings.Repeat("Long", 8+g.r.IntN(3)) // an untagged field is addressed by its lower-cased name, however long
+		}
 		f.Kind = c16Kinds[g.r.IntN(len(c16Kinds))]
 		if depth >= 2 && (f.Kind == "struct" || f.Kind == "*struct") {
 			f.Kind = "string"
